@@ -88,6 +88,11 @@ Fixpoint take_rows (im : image) (vis k j n : nat) : delivered * option nat :=
 (* next_frame advances to the next frame only when the current one is flushed AND all its rows were handed out (after the repair) *)
 Definition advancing (s : rstate) : bool := flushed s && match next_row s with None => true | Some _ => false end.
 
+(* next_frame answers end-of-image when no frame is left - unless the data sequence of the last frame was flushed (and the frame counted off)
+   while rows of it are still outstanding: those are still delivered (the repaired defect) *)
+Definition frame_refused (s : rstate) : bool :=
+  (remaining s =? 0) && negb (flushed s && match next_row s with None => false | Some _ => true end).
+
 (* the three row calls; [early]: the data sequence ends (and is flushed) during this call *)
 Definition row_step (im : image) (vis : nat) (s : rstate) (early : bool) : rstate * res * delivered :=
   match next_row s with
@@ -110,7 +115,8 @@ Definition step (im : image) (vis : nat) (s : rstate) (o : op) : rstate * res * 
   | ORow => row_step im vis s false
   | ORowF => row_step im vis s true
   | OFrame =>
-    if remaining s =? 0 then (s, REndOfImage, [])
+    (* the counter may already be 0 while rows of the last frame are still buffered (early flush): they are still delivered *)
+    if frame_refused s then (s, REndOfImage, [])
     else
       let '(s1, r1) := if advancing s then advance im vis s else (s, None) in
       match r1 with
